@@ -4,7 +4,8 @@ complete value ("check-then-set, written only with the value any other writer wo
 faithful if the real code makes the value visible to other threads when it is complete, i.e. the statement that
 stores the object into the shared container is not followed, in its block, by statements that still mutate the
 stored object.  For every cell this group records whether that holds; `Props/C16.lean` proves by `decide` that it
-holds for all of them, so an edit such as "setdefault first, update afterwards" breaks a named obligation.
+holds for all of them, so an edit that publishes the object first and fills it afterwards breaks a named obligation.
+A second list (`importCells`) records the one first-use cell whose object the import machinery makes (see below).
 
 Cells (file, function, shared container):
   mako/util.py      memoized_property.__get__   obj.__dict__[name]      (Template.cache, Template.reserved_names)
@@ -73,26 +74,89 @@ def _mutates(stmt, names):
     return False
 
 
-def imports_through_lock(fn, what):
-    """True iff the function obtains modules by `__import__(…)` / `importlib.import_module(…)` and never reads
-    `sys.modules`"""
-    has_import = False
-    reads_sys_modules = False
-    for node in ast.walk(fn):
-        if isinstance(node, ast.Call):
-            f = node.func
-            if isinstance(f, ast.Name) and f.id == "__import__":
-                has_import = True
-            if isinstance(f, ast.Attribute) and f.attr == "import_module":
-                has_import = True
+def _is_import_call(node):
+    """`__import__(…)`, `importlib.import_module(…)`, `import_module(…)`, `importlib.__import__(…)`: the calls that
+    run the import machinery, which holds the per-module import lock until the module body has been executed"""
+    if not isinstance(node, ast.Call):
+        return False
+    f = node.func
+    if isinstance(f, ast.Name) and f.id in ("__import__", "import_module"):
+        return True
+    return isinstance(f, ast.Attribute) and f.attr in ("import_module", "__import__")
+
+
+def _reads_sys_modules(tree_or_fn, aliases):
+    for node in ast.walk(tree_or_fn):
         if isinstance(node, ast.Attribute) and node.attr == "modules" and isinstance(node.value, ast.Name) \
                 and node.value.id == "sys":
-            reads_sys_modules = True
-        if isinstance(node, (ast.Import, ast.ImportFrom)):
-            has_import = has_import or True
-    if not has_import and not reads_sys_modules:
-        raise RegenError("%s: no longer imports a module" % what)
-    return has_import and not reads_sys_modules
+            return True
+        if isinstance(node, ast.Name) and node.id in aliases:
+            return True
+    return False
+
+
+def imports_through_lock(module_tree, fn, what, attr="module"):
+    """True iff every value the function stores into `self.<attr>` comes, possibly through a chain of
+    `getattr(<such a value>, …)`, from an import-machinery CALL, every other assignment to the local names involved is
+    of those two forms too, and the function reads `sys.modules` nowhere (directly or through a module-level alias).
+    `import x` statements do not count: they bind a name, they do not deliver the module named by a string."""
+    aliases = set()
+    for node in module_tree.body:
+        if isinstance(node, ast.ImportFrom) and node.module == "sys":
+            for a in node.names:
+                if a.name == "modules":
+                    aliases.add(a.asname or a.name)
+        if isinstance(node, ast.Assign) and isinstance(node.value, ast.Attribute) and node.value.attr == "modules" \
+                and isinstance(node.value.value, ast.Name) and node.value.value.id == "sys":
+            for t in node.targets:
+                if isinstance(t, ast.Name):
+                    aliases.add(t.id)
+    if _reads_sys_modules(fn, aliases):
+        return False
+    stores = []          # value nodes assigned to self.<attr>
+    assigns = {}         # local name -> [value nodes]
+    for node in ast.walk(fn):
+        if isinstance(node, ast.Assign):
+            for t in node.targets:
+                if isinstance(t, ast.Attribute) and t.attr == attr and isinstance(t.value, ast.Name) \
+                        and t.value.id == "self":
+                    stores.append(node.value)
+                elif isinstance(t, ast.Name):
+                    assigns.setdefault(t.id, []).append(node.value)
+        elif isinstance(node, (ast.AugAssign, ast.AnnAssign, ast.NamedExpr)):
+            t = node.target
+            if isinstance(t, ast.Name):
+                assigns.setdefault(t.id, []).append(getattr(node, "value", None))
+        elif isinstance(node, (ast.For, ast.With, ast.ExceptHandler)):
+            pass
+    if not stores:
+        raise RegenError("%s: no assignment to self.%s any more" % (what, attr))
+
+    good_names = set()
+    changed = True
+
+    def good_value(v):
+        if v is None:
+            return False
+        if _is_import_call(v):
+            return True
+        if isinstance(v, ast.Name):
+            return v.id in good_names
+        if isinstance(v, ast.Call) and isinstance(v.func, ast.Name) and v.func.id == "getattr" and v.args:
+            return good_value(v.args[0])
+        return False
+    while changed:
+        changed = False
+        for name, values in assigns.items():
+            if name in good_names:
+                continue
+            # optimistic for self-reference (`mod = getattr(mod, token)`): assume good, then verify
+            good_names.add(name)
+            if all(good_value(v) for v in values) and any(_is_import_call(v) for v in values):
+                changed = True
+            else:
+                good_names.discard(name)
+    return all(good_value(v) for v in stores)
 
 
 def stored_complete(fn, container, what):
@@ -167,8 +231,9 @@ def gen(repo) -> str:
                                   "ModuleInfo.__init__")))
     tr = parse(repo, "mako/runtime.py")
     mn = find_class(tr, "ModuleNamespace", "mako/runtime.py")
-    cells.append(("runtime.ModuleNamespace.__init__ module obtained through the import lock (__import__, not sys.modules)",
-                  imports_through_lock(find_func(mn.body, "__init__", "mako/runtime.py"), "ModuleNamespace.__init__")))
+    import_cells = [("runtime.ModuleNamespace.__init__ self.module comes from __import__/import_module calls only, no sys.modules",
+                     imports_through_lock(tr, find_func(mn.body, "__init__", "mako/runtime.py"),
+                                          "ModuleNamespace.__init__"))]
     lines = [HEADER % "mako/util.py, mako/cache.py, mako/lexer.py, mako/lookup.py, mako/template.py, mako/runtime.py (shared memo cells)",
              "namespace MakoModel.Generated.Conc",
              "",
@@ -176,6 +241,12 @@ def gen(repo) -> str:
              "    that stores it into the shared container has run (no later statement of the function mutates it) -/",
              "def memoCells : List (String × Bool) :=",
              "  [ " + "\n  , ".join("(%s, %s)" % (lean_string(n), "true" if ok else "false") for n, ok in cells),
+             "  ]",
+             "",
+             "/-- first-use cells whose object is made by the import machinery: whether the function obtains the module it",
+             "    keeps only from `__import__` / `import_module` calls (per-module import lock) and never reads `sys.modules` -/",
+             "def importCells : List (String × Bool) :=",
+             "  [ " + "\n  , ".join("(%s, %s)" % (lean_string(n), "true" if ok else "false") for n, ok in import_cells),
              "  ]",
              "",
              "end MakoModel.Generated.Conc",
